@@ -50,3 +50,37 @@ Print Assumptions C14_released_after_close.
 
 Example C14_nonvacuous : 30000000 <= worst_case_bound.
 Proof. vm_compute. discriminate. Qed.
+
+(* ---------------------------------------------------------------------------------------------------------
+   "it never returns normally": YncaApi.initialize() as a sequence of phases (Model/Startup.v: availability scan, SYS,
+   every detected subunit), for EVERY pattern of phases whose synchronisation reply does or does not arrive.  The four
+   facts about the code it rests on are read off the AST on every run (Gen/Params.v): the two timed waits raise when
+   they expire, nothing swallows a subunit's failure, the try/finally closes unless the try-body ran to its end. *)
+From Ynca Require Import Model.Startup Proofs.StartupFacts.
+
+Theorem C14_returns_only_when_every_phase_was_answered : forall d oks,
+  o_out (startup gen_scfg d oks) = Returned <-> d = true /\ forallb (fun b => b) oks = true.
+Proof. rewrite gen_scfg_good. exact startup_returns_iff_all_phases_ok. Qed.
+Print Assumptions C14_returns_only_when_every_phase_was_answered.
+
+Theorem C14_a_failed_initialize_has_released_everything : forall d oks,
+  o_out (startup gen_scfg d oks) = Raised ->
+  o_released (startup gen_scfg d oks) = true /\ o_exposed (startup gen_scfg d oks) = O.
+Proof. rewrite gen_scfg_good. exact startup_failure_releases. Qed.
+Print Assumptions C14_a_failed_initialize_has_released_everything.
+
+Theorem C14_a_successful_initialize_exposes_every_phase : forall d oks,
+  o_out (startup gen_scfg d oks) = Returned ->
+  o_exposed (startup gen_scfg d oks) = length oks /\ o_released (startup gen_scfg d oks) = false.
+Proof. rewrite gen_scfg_good. exact startup_success_exposes_all. Qed.
+Print Assumptions C14_a_successful_initialize_exposes_every_phase.
+
+(* skipping a subunit that does not answer would let initialize() return normally after a failed step *)
+Theorem C14_skipping_a_failed_subunit_refuted :
+  exists d oks, forallb (fun b => b) oks = false /\ o_out (startup cfg_swallow d oks) = Returned.
+Proof. exact swallow_refuted. Qed.
+Print Assumptions C14_skipping_a_failed_subunit_refuted.
+
+Example C14_startup_nonvacuous :
+  o_out (startup gen_scfg true [true; true; false; true]) = Raised /\ o_out (startup gen_scfg true [true; true]) = Returned.
+Proof. split; reflexivity. Qed.
